@@ -180,6 +180,10 @@ func extractFile(fset *token.FileSet, af *ast.File, base string) []jCmd {
 					continue
 				}
 				for _, n := range fl.Names {
+					if n.Name == "AndX" {
+						// would shadow the promoted Command.AndX the model keeps under this name
+						fail(fset, fl, "%s declares a field named AndX", ts.Name.Name)
+					}
 					c.Fields = append(c.Fields, jField{n.Name, t})
 				}
 			}
@@ -187,6 +191,23 @@ func extractFile(fset *token.FileSet, af *ast.File, base string) []jCmd {
 				structs[c.Name] = c
 				order = append(order, c.Name)
 			}
+		}
+	}
+	// IsAndX first: the translation of `if c.IsAndX() { … }` in Unmarshal depends on it
+	for _, d := range af.Decls {
+		fd, ok := d.(*ast.FuncDecl)
+		if !ok || fd.Recv == nil || fd.Name.Name != "IsAndX" {
+			continue
+		}
+		c, ok := structs[strings.TrimPrefix(src(fset, fd.Recv.List[0].Type), "*")]
+		if !ok {
+			continue
+		}
+		s := src(fset, fd.Body)
+		if s == "{ return true }" {
+			c.IsAndX = true
+		} else if s != "{ return false }" {
+			fail(fset, fd, "IsAndX body not understood: %s", s)
 		}
 	}
 	for _, d := range af.Decls {
@@ -212,13 +233,6 @@ func extractFile(fset *token.FileSet, af *ast.File, base string) []jCmd {
 			continue
 		}
 		switch fd.Name.Name {
-		case "IsAndX":
-			s := src(fset, fd.Body)
-			if s == "{ return true }" {
-				c.IsAndX = true
-			} else if s != "{ return false }" {
-				fail(fset, fd, "IsAndX body not understood: %s", s)
-			}
 		case "Marshal":
 			c.Marshal = append([]jStmt{}, extractMarshal(fset, fd, c)...)
 		case "Unmarshal":
@@ -811,6 +825,14 @@ func unmarshalBody(fset *token.FileSet, stmts []ast.Stmt, c *jCmd) []jStmt {
 		switch n := st.(type) {
 		case *ast.IfStmt:
 			cond := src(fset, n.Cond)
+			if cond == `c.IsAndX()` && n.Else == nil && n.Init == nil {
+				// the AndX stanza: IsAndX is a constant of the structure, so the body is either dead or unconditional
+				if !c.IsAndX {
+					fail(fset, st, "Unmarshal of %s: `if c.IsAndX()` in a structure whose IsAndX returns false", c.Name)
+				}
+				out = append(out, unmarshalAndX(fset, n.Body.List, c)...)
+				continue
+			}
 			if m := regexp.MustCompile(`^c\.GetParameters\(\)\.WordCount == (0x[0-9A-Fa-f]+|\d+)$`).FindStringSubmatch(cond); m != nil && n.Else == nil {
 				k, _ := strconv.ParseInt(m[1], 0, 64)
 				body := n.Body.List
@@ -857,6 +879,37 @@ func unmarshalBody(fset *token.FileSet, stmts []ast.Stmt, c *jCmd) []jStmt {
 			}
 		}
 		fail(fset, st, "Unmarshal of %s: statement not understood: %s", c.Name, s)
+	}
+	return out
+}
+
+// body of `if c.IsAndX() { … }` in an Unmarshal:
+//
+//	if c.GetAndX() == nil { c.SetAndX(andx.NewAndX()) }; _, err = c.GetAndX().Unmarshal(rawParametersContent); if err != nil { return 0, err }
+//	  -> readAndX   (the nil check is part of the shape: Init() leaves c.AndX nil)
+//	rawParametersContent = rawParametersContent[N:]
+//	  -> resliceP N
+func unmarshalAndX(fset *token.FileSet, stmts []ast.Stmt, c *jCmd) []jStmt {
+	var out []jStmt
+	for i := 0; i < len(stmts); i++ {
+		st := stmts[i]
+		s := src(fset, st)
+		line := fset.Position(st.Pos()).Line
+		if s == `if c.GetAndX() == nil { c.SetAndX(andx.NewAndX()) }` {
+			if i+2 < len(stmts) && src(fset, stmts[i+1]) == `_, err = c.GetAndX().Unmarshal(rawParametersContent)` &&
+				(src(fset, stmts[i+2]) == `if err != nil { return 0, err }` || src(fset, stmts[i+2]) == `if err != nil { return offset, err }`) {
+				out = append(out, jStmt{Op: "readAndX", Line: line})
+				i += 2
+				continue
+			}
+			fail(fset, st, "Unmarshal of %s: the AndX block is created but not unmarshalled from rawParametersContent with its error checked", c.Name)
+		}
+		if m := regexp.MustCompile(`^rawParametersContent = rawParametersContent\[(\d+):\]$`).FindStringSubmatch(s); m != nil {
+			k, _ := strconv.Atoi(m[1])
+			out = append(out, jStmt{Op: "resliceP", K: k, Line: line})
+			continue
+		}
+		fail(fset, st, "Unmarshal of %s: statement of the AndX stanza not understood: %s", c.Name, s)
 	}
 	return out
 }
@@ -987,8 +1040,10 @@ func leanStmt(s jStmt, marshal bool) string {
 	// unmarshal
 	case "retIfEmpty":
 		return fmt.Sprintf(".retIfEmpty %s %s", smbLeanBool(s.PEmpty), smbLeanBool(s.DEmpty))
-	case "resetOffset", "advanceRead", "padRoundUp", "padIfPOdd", "resliceD":
+	case "resetOffset", "advanceRead", "padRoundUp", "padIfPOdd", "resliceD", "readAndX":
 		return "." + s.Op
+	case "resliceP":
+		return fmt.Sprintf(".resliceP %d", s.K)
 	case "guard":
 		return fmt.Sprintf(".guard .%s %s", s.Blk, leanExpr(s.E))
 	case "readInt", "readQuad", "forRangeInt":
